@@ -96,7 +96,7 @@ def cases(seed, tier):
     for k in range(n):
         rng = trees.rng_for(seed, PID, k)
         kind = ["network", "cell", "network", "cell", "branch"][k % 5] if k % 12 else "network"
-        directed = None
+        directed, directed_key = None, None
         if k % 10 == 7:
             # the PADDED index array of the trainable has exactly as many entries as the module has compartments, without
             # covering them: branches (a, b, b-a), one parameter per branch on the first two -> 2 x b entries for 2b compartments
@@ -108,13 +108,22 @@ def cases(seed, tier):
             kind = "cell"
             world = c11.make_world(rng, kind, st={"kind": "cell", "cells": [{"parents": [-1, 0, int(rng.integers(0, 2))], "ncomp": sizes}]})
             directed = [{"op": "branch", "form": "list", "payload": sel}]
+        elif k % 10 == 9:
+            # many synapses of two types interleaved in creation order, one run-time parameter PER EDGE of one type
+            kind = "network"
+            world = c11.make_world(rng, kind, nsyn=int(rng.integers(12, 33)))
+            t = int(rng.integers(0, 2))
+            es = [i for i, s3 in enumerate(world["syn"]) if s3[2] == t]
+            if len(es) >= 2:
+                directed = [{"op": "scope", "s": "global"}, {"op": "edge", "form": "list", "payload": es}]
+                directed_key = ["IonotropicSynapse_gS", "TestSynapse_gC"][t]
         else:
             world = c11.make_world(rng, kind)
             if k % 10 == 3:
                 # one parameter per compartment, created through a view that lists all compartments in another order
                 directed = [{"op": "select", "nodes": [int(x) for x in rng.permutation(len(world["arrays"]["comp"]))], "edges": None}]
         world["channels"].setdefault("HH", sorted(set(int(x) for x in rng.integers(0, len(world["arrays"]["comp"]), 4))))
-        routes = (k % 6 == 0) and len(world["arrays"]["comp"]) <= 14
+        routes = (k % 6 == 0) and len(world["arrays"]["comp"]) <= 14 and directed_key is None
         calls = []
         for j in range(1 if routes else int(rng.integers(1, 4))):
             ops = gen_view_ops(rng, world) if (directed is None or j > 0) else directed
@@ -129,6 +138,8 @@ def cases(seed, tier):
             if kind == "network" and any(vm.etype[e] == "TestSynapse" for e in vm.edges):
                 keys += ["TestSynapse_gC"]
             key = str(rng.choice(keys if (directed is None or j > 0) else NODE_KEYS))
+            if directed_key and j == 0:
+                key = directed_key
             calls.append({"ops": ops, "key": key, "vseed": int(rng.integers(0, 2**31)),
                           "init": ["list", "list", "float", "none"][int(rng.integers(0, 4))]})
         if routes and kind == "network" and world["syn"] and k % 12 == 0:
